@@ -107,6 +107,7 @@ type Exec struct {
 	callStack                       []*ssa.Function
 	inPanics                        int
 	merging                         int
+	pendingUnsafe                   string
 	pending                         []pendingAssert
 	noMerge                         bool
 	threads                         *threadState
@@ -593,6 +594,9 @@ func (w *Worker) runPath(it *workItem) (res pathResult) {
 	fn := it.job.entry
 	ex.callFunction(nil, fn, nil)
 	ex.flush()
+	if ex.pendingUnsafe != "" {
+		ex.fail("unsafe", "unsafe access outside the slice", ex.pendingUnsafe)
+	}
 	if ex.inPrefix() {
 		panic(engineError("re-execution ended before consuming its decision prefix"))
 	}
